@@ -17,6 +17,7 @@ CHECKS = {
     "C39": "archive",
     "C17": "pcode",
     "C18": "linegrammar",
+    "C06": "engine", "C07": "engine", "C08": "engine", "C09": "engine", "C13": "engine",
 }
 
 MC = "model_checking"
@@ -137,4 +138,32 @@ CLAIMS = {
             "Watch/Alarm/Simulate tag (with spaces) x all 7 operators x spacing x numeric (incl. negative, exponent) / string value "
             "x unit x tail (trailing blank, comment); quick takes a seeded sample of 25,000.",
             "Thin oracle (identity of parts); level exploration.", "7 C18"),
+    "C06": (MC, "TLA+ design spec RunState.tla (SysStateAgrees, RunIdFresh; TLC exhaustive) whose behaviours are replayed as command "
+                "schedules on the real Engine; the monitor RunStateTrace.tla checks the C06 clauses on every tick boundary and request",
+            "TLC explores every sequence of <= 4-5 user control commands interleaved with <= 6-7 ticks; every edge of the replay "
+            "graph (<= 3 commands, 5 ticks) plus 600 (thorough 8000) random schedules with method-issued Pause/Hold/Stop/Restart "
+            "(with durations), injected code, cancel/force and failing instructions run on the real engine; at every tick "
+            "boundary: Stopped iff no run, state = f(flags) or Restarting only during a restart, control-state message = flags, "
+            "run id present/cleared/fresh; every user command accepted iff valid in the state at the request.",
+            "Trusted: virtual time (engine.tick called directly, NullTimer), instrumented UOD + recording hardware, node-flag recorder; requests are applied between ticks. The RunState behaviours are input schedules, the verdict is the monitor's named clauses on the observed state.", "6.1, 7 C06"),
+    "C07": (MC, "RunState.tla clock properties (TLC) + monitor clauses of RunStateTrace.tla on the same recorded runs",
+            "Clocks in integer microseconds at every tick boundary: zero at run start, monotone within a run, Process Time / Block "
+            "Time / Scope Time advance only over ticks that began in state Running, Run Time only while a run is active "
+            "(block/scope clauses skip ticks with a scope change).",
+            "Trusted: virtual time (engine.tick called directly, NullTimer), instrumented UOD + recording hardware, node-flag recorder; requests are applied between ticks. The RunState behaviours are input schedules, the verdict is the monitor's named clauses on the observed state. One-directional clauses (never require an advance).", "6.1, 7 C07"),
+    "C08": (MC, "RunState.tla SafeWhenIdle / SafeWhilePaused (TLC) + monitor clauses on the recording hardware of the same runs",
+            "The device memory starts dirty; at every tick boundary: safe before the first run, safe after every Stop/Restart "
+            "stop phase, safe throughout pauses (site-named: pause / error-pause / command-keeps-writing), no unsafe write while "
+            "no run is active.",
+            "Trusted: virtual time (engine.tick called directly, NullTimer), instrumented UOD + recording hardware, node-flag recorder; requests are applied between ticks. The RunState behaviours are input schedules, the verdict is the monitor's named clauses on the observed state. 'Unless the user commands that output during the pause' cannot occur in the harness.", "6.1, 7 C08"),
+    "C09": (MC, "RunState.tla UnpauseRestoresLastPause / PrevNeverCrossesRuns (TLC) + monitor clause C09.unpause-restores on the runs",
+            "Runs with user, method, timed and error pauses, double Pause requests, output changes between them, several runs per "
+            "schedule: at the tick in which a pause ends the output tag equals the value at the last unpaused tick boundary of "
+            "the same run (skipped when a writing command executed in the pause/unpause tick).",
+            "Trusted: virtual time (engine.tick called directly, NullTimer), instrumented UOD + recording hardware, node-flag recorder; requests are applied between ticks. The RunState behaviours are input schedules, the verdict is the monitor's named clauses on the observed state.", "6.1, 7 C09"),
+    "C13": (MC, "monitor clauses of RunStateTrace.tla on every recorded run: tick never raises, a failing instruction pauses with "
+                "Method Status Error and is reported failed, an accepted Stop completes within 3 ticks",
+            "All corpus runs (RunState graph schedules, random schedules over methods with unknown instructions, failing UOD "
+            "commands, bad arguments, injected snippets, hardware within its domain).",
+            "Trusted: virtual time (engine.tick called directly, NullTimer), instrumented UOD + recording hardware, node-flag recorder; requests are applied between ticks. The RunState behaviours are input schedules, the verdict is the monitor's named clauses on the observed state. Malformed-text classes are extended with the interpreter corpus.", "7 C13"),
 }
